@@ -43,10 +43,12 @@ type caseOut struct {
 	canon []string
 	nrets int
 	kind  string
+	gout  []string // concurrent growth: what the implementation showed at every step
+	gal   []string // concurrent growth: the AllocateVolume requests (request, volume id)
 }
 
 func (c *caseOut) term() string {
-	return fmt.Sprintf("{| inp := %s; out := %s; fin := %s |}", c.inp, hx.List(c.outs), hx.NList(c.fin))
+	return fmt.Sprintf("{| inp := %s; out := %s; fin := %s; gout := %s; gal := %s |}", c.inp, hx.List(c.outs), hx.NList(c.fin), hx.List(c.gout), hx.List(c.gal))
 }
 
 // ---------- topology helpers ----------
@@ -1088,7 +1090,7 @@ func genStress(r *hx.Rng, out *hx.Out, kind int) *caseOut {
 func main() {
 	out := hx.Flags("C13", 300)
 	flag.Set("logtostderr", "true")
-	out.Rule = "cases 0-8 are fixed: the etcd SetMax witnesses (finding 0, two forms), 64 back-to-back snowflake NextFileId(3) (finding 1), the etcd error witness (finding 2), a 60000-call snowflake burst (12-bit roll-over window when observed), the etcd uint64 wrap witnesses (finding 3: count 2^64-1; count 2^64-500), the memory leader-change witness (finding 4), two snowflake nodes with colliding address hashes (finding 5); then by case number mod 20: memory sequencer op lists (direct; through Topology.PickForWrite with every SetMax delivered by the real MasterServer.SendHeartbeat over an in-memory stream, observing the counter between SetMax and the volume registration; near 2^64; leader change to a fresh sequencer whose first heartbeat reports a written key), etcd with counts near 2^64, 1-3 etcd sequencers on one fake store with every KeysAPI call scheduled separately (modes: plain / SetMax / SetMax+faults+restarts), snowflake bursts on 1-2 nodes (count<=1 / count>1), Topology.NextVolumeId over a fake raft with heartbeats (locked / unlocked / near 2^32); thorough tier adds goroutine stress on the memory and etcd sequencers; non-trivial = at least two non-empty ranges (ids) handed out; distinct = canonical step list"
+	out.Rule = "cases 0-9 are fixed (case 9: two concurrent GrowByCountAndType(2) requests on a topology with volumes 1-3, the real VolumeGrowth / Topology.NextVolumeId over a fake raft server whose Do() parks until the scheduler releases it and in-process AllocateVolume gRPC endpoints): the etcd SetMax witnesses (finding 0, two forms), 64 back-to-back snowflake NextFileId(3) (finding 1), the etcd error witness (finding 2), a 60000-call snowflake burst (12-bit roll-over window when observed), the etcd uint64 wrap witnesses (finding 3: count 2^64-1; count 2^64-500), the memory leader-change witness (finding 4), two snowflake nodes with colliding address hashes (finding 5); then by case number mod 20: memory sequencer op lists (direct; through Topology.PickForWrite with every SetMax delivered by the real MasterServer.SendHeartbeat over an in-memory stream, observing the counter between SetMax and the volume registration; near 2^64; leader change to a fresh sequencer whose first heartbeat reports a written key), etcd with counts near 2^64, 1-3 etcd sequencers on one fake store with every KeysAPI call scheduled separately (modes: plain / SetMax / SetMax+faults+restarts), snowflake bursts on 1-2 nodes (count<=1 / count>1), Topology.NextVolumeId over a fake raft with heartbeats (locked / unlocked / near 2^32), 2-4 concurrent goroutines running the real VolumeGrowth.GrowByCountAndType (1-3 volumes each, 1 or 2 copies, raft errors, AllocateVolume failures, heartbeats; the scheduler acts when every grow goroutine is parked in the fake raft Do(), blocked on a mutex or done, and records every raft proposal, every volume id sent to a volume server, the returned counters); thorough tier adds goroutine stress on the memory and etcd sequencers; non-trivial = at least two non-empty ranges (ids) handed out; distinct = canonical step list"
 	root := hx.NewRng(out.Seed)
 	for i := 0; i < out.N; i++ {
 		r := root.Fork()
@@ -1112,8 +1114,12 @@ func main() {
 			c = genMemFailover(r, out, true)
 		case i == 8:
 			c = witSnowCollision()
+		case i == 9:
+			c = genGrow(r, out, true)
 		case out.Variant == "race" && i%3 == 2: // race detector stage: real goroutines
 			c = genStress(r, out, (i/3)%4)
+		case out.Variant == "race" && i%3 == 1: // concurrent GrowByCountAndType requests
+			c = genGrow(r, out, false)
 		case out.Tier == "thorough" && i%10 == 9:
 			c = genStress(r, out, (i/10)%3)
 		default:
@@ -1140,8 +1146,10 @@ func main() {
 				c = genSnow(r, out, []int{1, 3, 1, 4}[(i/20)%4])
 			case k < 16:
 				c = genSnow(r, out, 2)
-			case k < 18:
+			case k < 17:
 				c = genVol(r, out, true, false)
+			case k < 18:
+				c = genGrow(r, out, false)
 			case k < 19:
 				c = genVol(r, out, false, false)
 			default:
